@@ -12,7 +12,8 @@ Reading guide.
 * "arbitrary, stateful, order-observing closure" = any `f : Nat → α → StateM σ β` (any state type, any function).
   `stateAfter f 0 s xs` is the closure's state after having been called on `xs` left to right; `logged f` wraps `f` with a
   recorder of the `(position, element)` pairs it is called with.
-* the plain variants are the enumerating variants with a closure that ignores the position (`plain_eq_enumerating`).
+* the plain variants are, by definition, the enumerating variants with a closure that ignores the position
+  (`Iter.plain_eq_enumerating`, a lemma); `loggedPlain f` records the elements a position-less closure is called with.
 * `stamp` / `stampFold` are the counter-stamping closures the correspondence harness runs on the real crate; the `_stamp`
   theorems give the transcript (result + log) in closed form.
 * the scalar kernels of the math functions are parameters (`unary k`); which `f64` method each public op uses is tied
@@ -22,14 +23,6 @@ namespace ArrModel.C05
 open ArrModel ArrModel.Iter ArrModel.Flt
 
 variable {α β γ σ : Type}
-
-/-- the plain variants are the enumerating variants with a closure that ignores the position -/
-theorem plain_eq_enumerating {m : Type → Type} [Monad m] (a : Arr α) :
-    (∀ f : α → m β, mapM a f = mapEM a (fun _ => f)) ∧
-    (∀ f : α → m Bool, filterM a f = filterEM a (fun _ => f)) ∧
-    (∀ f : α → m (Option β), filterMapM a f = filterMapEM a (fun _ => f)) ∧
-    (∀ f : α → m Unit, forEachM a f = forEachEM a (fun _ => f)) :=
-  ⟨fun _ => rfl, fun _ => rfl, fun _ => rfl, fun _ => rfl⟩
 
 /-! ## map / map_e with an arbitrary stateful closure -/
 
@@ -82,6 +75,30 @@ theorem forEachEM_trace (a : Arr α) (f : Nat → α → StateM σ Unit) (s : σ
       (.ok (), (((forEachEM a f).run s).2, (List.range a.elems.length).zip a.elems)) := by
   rw [forEachEM_run, forEachEM_run, forEachIdxM_eq_traverse, forEachIdxM_eq_traverse, traverseIdx_logged,
     enumFrom_zero_eq_zip]; simp
+
+/-- **map / filter / filter_map / for_each traces** (closures that are not handed a position): the record is exactly
+`elems` — every element once, in flat order — and recording changes nothing else. -/
+theorem mapM_trace (a : Arr α) (f : α → StateM σ β) (s : σ) :
+    (mapM a (loggedPlain f)).run (s, []) = (((mapM a f).run s).1, (((mapM a f).run s).2, a.elems)) := by
+  show (mapEM a (fun _ => loggedPlain f)).run (s, []) = (((mapEM a (fun _ => f)).run s).1, (((mapEM a (fun _ => f)).run s).2, _))
+  rw [mapEM_run, mapEM_run, traverseIdx_loggedPlain]; simp
+
+theorem filterM_trace (a : Arr α) (f : α → StateM σ Bool) (s : σ) :
+    (filterM a (loggedPlain f)).run (s, []) = (((filterM a f).run s).1, (((filterM a f).run s).2, a.elems)) := by
+  show (filterEM a (fun _ => loggedPlain f)).run (s, []) =
+    (((filterEM a (fun _ => f)).run s).1, (((filterEM a (fun _ => f)).run s).2, _))
+  rw [filterEM_run, filterEM_run, filterIdxM_eq_traverse, filterIdxM_eq_traverse, traverseIdx_loggedPlain]; simp
+
+theorem filterMapM_trace (a : Arr α) (f : α → StateM σ (Option β)) (s : σ) :
+    (filterMapM a (loggedPlain f)).run (s, []) = (((filterMapM a f).run s).1, (((filterMapM a f).run s).2, a.elems)) := by
+  show (filterMapEM a (fun _ => loggedPlain f)).run (s, []) =
+    (((filterMapEM a (fun _ => f)).run s).1, (((filterMapEM a (fun _ => f)).run s).2, _))
+  rw [filterMapEM_run, filterMapEM_run, filterMapIdxM_eq_traverse, filterMapIdxM_eq_traverse, traverseIdx_loggedPlain]; simp
+
+theorem forEachM_trace (a : Arr α) (f : α → StateM σ Unit) (s : σ) :
+    (forEachM a (loggedPlain f)).run (s, []) = (.ok (), (((forEachM a f).run s).2, a.elems)) := by
+  show (forEachEM a (fun _ => loggedPlain f)).run (s, []) = (.ok (), (((forEachEM a (fun _ => f)).run s).2, _))
+  rw [forEachEM_run, forEachEM_run, forEachIdxM_eq_traverse, forEachIdxM_eq_traverse, traverseIdx_loggedPlain]; simp
 
 /-- **fold trace**: the folding closure is called once per element, in flat order -/
 theorem foldM_trace (a : Arr α) (init : γ) (f : γ → α → StateM σ γ) (s : σ) :
